@@ -15,6 +15,9 @@
 (* accepted iff it is a header of the right type with positive dimensions      *)
 (* whose true product P fits, followed by exactly (slice API) / at least       *)
 (* (stream API) 8*P bytes.  Everything else must be an error.                  *)
+(* For the stream API a byte string b stands for every stream that delivers b  *)
+(* and then ends OR BREAKS (a read error other than end-of-file), however the  *)
+(* bytes are cut into reads: the decision only depends on the bytes delivered. *)
 EXTENDS Integers, Sequences, FiniteSets, TLC, Json
 
 CONSTANTS Mode,   \* "enc" (values) | "dec" (byte strings: dimension grid, other fields, truncations)
